@@ -276,6 +276,8 @@ def run_twins(mods, op, wrapped, xs, ms, rs, order):
 
 
 tg_single = TaskGenerator(single)
+tg_single2 = TaskGenerator(single2)
+tg_affine = TaskGenerator(affine)
 tg_concat = TaskGenerator(concat)
 
 
@@ -417,6 +419,23 @@ def run(ck):
                     list(gotr) != list(itertools.chain(*[(x,) for x in xs])):
                 ck.violation({'kind': 'impl-violation', 'what': 'currymap/map/reduce differ from the built-ins',
                               'n': n, 'map_step': ms, 'currymap': repr(got), 'map': repr(gotm), 'reduce': repr(gotr)})
+            # the same with TaskGenerator-wrapped functions, map_step == 1 included (D26: AttributeError at build time)
+            jugrun.fresh()
+            del CALLS[:]
+            try:
+                rw = jug.mapreduce.currymap(tg_single2, pairs, map_step=ms)
+                mw = jug.mapreduce.map(tg_affine, xs, map_step=ms)
+                dw = jug.mapreduce.reduce(tg_concat, [(x,) for x in xs], reduce_step=max(2, ms))
+                jugrun.run_all_sequential()
+                gotw = ([value(e) for e in rw], list(value(mw)), list(value(dw)))
+            except Exception as e:
+                gotw = 'raised %s: %s' % (type(e).__name__, e)
+            ck.case_total += 1
+            ck.count('taskgenerator-wrapped currymap/map/reduce')
+            ck.distinct(('tgmap', n, ms), n >= 2)
+            if gotw != ([single2(*p) for p in pairs], [7 * x + 3 for x in xs], list(itertools.chain(*[(x,) for x in xs]))):
+                ck.violation({'kind': 'impl-violation', 'what': 'currymap/map/reduce with TaskGenerator-wrapped functions differ from the built-ins',
+                              'n': n, 'map_step': ms, 'got': repr(gotw), 'tgmap': [n, ms]})
             if ms != 1 and n > 0:
                 blocks = [list(value(b)) for b in mp.blocks]
                 cm_cases.append('(%s, %s, %s)' % (listlit([zlit(7 * x + 3) for x in xs]), natlit(ms),
@@ -527,8 +546,6 @@ def run(ck):
                 for wrapped in (False, True):
                     for n in (0, 1, 3, 4, 7, 9) if not thorough else range(0, 13):
                         for ms in (1, 2, 4):
-                            if wrapped and ms == 1:
-                                ms = 3      # (map_step == 1 hands the TaskGenerator itself to Task(): AttributeError on HEAD, not an input here)
                             k += 1
                             res = run_twins(mods, op, wrapped, list(range(n)), ms, 2 + k % 3, k % 2)
                             ck.distinct(('twins', op, wrapped, n, ms), n >= 2)
@@ -672,6 +689,22 @@ def replay(obj):
         ol = obs_any(lambda: [len(m2), len(m3)])
         print('len observed', ol, 'expected', [len(xs)] * 2)
         return 0 if (ran[0] == 'ok' and o == e and ol == ('ok', [len(xs)] * 2)) else 1
+    if 'tgmap' in obj:
+        n, ms = obj['tgmap']
+        xs = list(range(n))
+        pairs = [(x, x + 50) for x in xs]
+        try:
+            rw = jug.mapreduce.currymap(tg_single2, pairs, map_step=ms)
+            mw = jug.mapreduce.map(tg_affine, xs, map_step=ms)
+            dw = jug.mapreduce.reduce(tg_concat, [(x,) for x in xs], reduce_step=max(2, ms))
+            jugrun.run_all_sequential()
+            got = ([value(e) for e in rw], list(value(mw)), list(value(dw)))
+        except Exception as e:
+            got = 'raised %s: %s' % (type(e).__name__, e)
+        exp = ([single2(*p) for p in pairs], [7 * x + 3 for x in xs], list(itertools.chain(*[(x,) for x in xs])))
+        print('observed', got)
+        print('expected', exp)
+        return 0 if got == exp else 1
     if 'twins' in obj:
         q = obj['twins']
         with jugrun.scratch_dir('twins') as d:
